@@ -143,6 +143,9 @@ def emit_behaviours(module, cfg, workdir, outfile, workers=None, timeout=1500, x
 
 # --------------------------------------------------------------------------- drivers
 
+DEATHS = []   # driver processes that died outside any run (filled by run_driver_shard)
+
+
 def run_driver_shard(fam, tier, seed, shard, nshards, outbase, extra, max_restarts=4, budget=0):
     """Run one shard; restart behind a crash/hang. Returns list of log files."""
     files = []
@@ -179,8 +182,12 @@ def run_driver_shard(fam, tier, seed, shard, nshards, outbase, extra, max_restar
         log("driver %s shard %d died (rc=%s) in run #%d of this attempt; restarting behind it" %
             (fam, shard, p.returncode, nruns))
         if nruns == 0:
-            sys.stdout.write(p.stdout[-3000:])
-            raise ToolError("driver %s died before its first run" % fam)
+            # died before it began a run (code under test called while the driver prepares its cases, e.g. a
+            # constructor): there is no run to attach the death to, so it is reported as a finding of its own;
+            # the rest of this shard is abandoned
+            DEATHS.append({"family": fam, "shard": shard, "attempt": attempt, "rc": p.returncode,
+                           "cmd": " ".join(cmd), "output_tail": p.stdout[-600:]})
+            return files
         skip += nruns
     # the code under test keeps dying: every death left a dangling call (= a violation to report);
     # the rest of this shard is abandoned
